@@ -289,6 +289,18 @@ def keptTarget (w : World) (oldT : Nat) (rem : List CompId) : Entity :=
   if !tb.target.isZero && Mask.containsAny (w.tableMask oldT) w.reg.isRel && rem.any (fun id => Mask.get w.reg.isRel id)
   then Entity.zero else tb.target
 
+/-- The relation target of the destination table in `exchangeNoNotify`: the given one (checked)
+    when a relation is specified, else the kept / reset old target. -/
+def exchangeTarget (w : World) (mask : Mask) (rel : Option CompId) (target : Entity) (srcTbl : Nat) (rem : List CompId) : Except Panic Entity :=
+  match rel with
+  | some r =>
+    if !Mask.get mask r then .error .relMissing
+    else if !Mask.get w.reg.isRel r then .error .notRel
+    else match w.checkTarget target with
+      | some p => .error p
+      | none => .ok target
+  | none => .ok (w.keptTarget srcTbl rem)
+
 /-- What `exchangeNoNotify` returns for the notification. -/
 structure Exchanged where
   tbl : Nat
@@ -320,16 +332,7 @@ def exchangeNoNotify (w : World) (e : Entity) (add rem : List CompId) (rel : Opt
   match exchangeMask oldMask add rem with
   | .error p => w.fail p
   | .ok mask =>
-    let tgt : Except Panic Entity :=
-      match rel with
-      | some r =>
-        if !Mask.get mask r then .error .relMissing
-        else if !Mask.get w.reg.isRel r then .error .notRel
-        else match w.checkTarget target with
-          | some p => .error p
-          | none => .ok target
-      | none => .ok (w.keptTarget l.tbl rem)
-    match tgt with
+    match w.exchangeTarget mask rel target l.tbl rem with
     | .error p => w.fail p
     | .ok target =>
       let oldRel := w.tableRel l.tbl
